@@ -112,12 +112,19 @@ def jobs_checks(tier):
                             "params": {"check": check, "shape": sh, "keep": 1, "alerting": a, "nlabels": nl, "nann": na, "grouplabel": gl}, "unwind": 60, "reach": ["end"]})
     return out
 
+def jobs_aliasloop(tier):
+    return [{"name": "aliasloop-n%d-s%d-k%d" % (n, st, k), "func": "VerifHarness_AliasLoop", "params": {"n": n, "strict": st, "key": k},
+             "unwind": 300, "reach": ["end", "loop"]} for n in ((1, 2) if tier == "quick" else (1, 2, 3)) for st in (0, 1) for k in (0, 1, 2)]
+
+
 PROP = {
     "level_text": "Bounded symbolic model checking of pint's real rendering and routing kernels for run-time panics: diags.InjectDiagnostics / lineCoverage / readRange / PositionRanges.Lines / LineRange.Expand, the console, JSON, checkstyle and TeamCity reporters, config.GetChecksForEntry + the error check, and the Problem values built by the configuration-driven checks, all over symbolic reports that satisfy the report invariant I on a file of <= 4 lines of symbolic bytes.",
     "level_note": "This is kernel totality, not a claim about arbitrary bytes: the quantifier of C02 is over file contents and the solver sees reports and nodes. File access is cut; encoders (encoding/json, encoding/xml, fmt.Fprint*) are models that accept anything; in package reporter diags.InjectDiagnostics is cut (it is executed in package diags). Part (a) (parser kernels on symbolic yaml.Node trees) is covered only for the position kernels named in notes/C02.md.",
     "runs": [
         {"pkg": "./internal/diags", "harness": ["harness/C02/diags.go"], "intmode": True, "consttrees": True, "jobs": jobs_diags, "job_timeout_s": 900},
         {"pkg": "./internal/parser", "harness": ["harness/C02/parser.go"], "intmode": True, "jobs": jobs_parser},
+        # anchors that contain themselves (F39): Parser.Parse on a node graph with 1..2 aliases of symbolic target, decoder cut
+        {"pkg": "./internal/parser", "harness": ["harness/C02/aliasloop.go"], "intmode": True, "jobs": jobs_aliasloop},
         {"pkg": "./internal/reporter", "harness": ["harness/C02/reporter.go"], "intmode": True, "jobs": jobs_reporter, "job_timeout_s": 900},
         {"pkg": "./internal/config", "harness": ["harness/C02/routing.go"], "intmode": True, "jobs": jobs_routing},
         {"pkg": "./internal/checks", "harness": ["harness/C18/expand.go", "harness/C02/checks.go"], "intmode": True, "jobs": jobs_checks},
